@@ -6,7 +6,8 @@
    repaired rule.  The hard clauses (Hard) are proved for BOTH variants; the shape clause
    (Shape) is refuted for the current variant by a concrete run and kept as [C11_full]. *)
 From Coq Require Import List ZArith QArith Bool Arith Permutation.
-From GV Require Import Lib.Tree Model.DrawSet Proofs.DrawSetP Model.Mcmc Proofs.McmcP Proofs.McmcCheckP.
+From GV Require Import Lib.Tree Model.DrawSet Proofs.DrawSetP Model.Mcmc Proofs.McmcP Proofs.McmcCheckP
+                       Proofs.McmcFail.
 Import ListNotations.
 
 (* the full statement of the property for the model of rewire(): every graph the run passes
@@ -271,3 +272,142 @@ Proof.
   destruct (ex_run true) as [[r sf] tr]. cbn [fst snd] in *.
   inversion H as [|? ? [H1 H2] _]; subst. split; [exact H1|]. split; [exact H2|exact Hne].
 Qed.
+
+(* ================================================================== Growth 2: admissible runs do not fail *)
+(* (audit finding F7: a failed run returns the unchanged last state, so the invariant theorems above hold
+   trivially for runs that raise.)  Objects (Proofs/McmcFail.v):
+     rewire_visited C es0 evs   the configurations (phase, state, oracle answer) the run passes through, in order
+     apply_ok_at C x            if the phase of x is PhRandom (the Metropolis test is due: [suitable] accepted the
+                                pair and the swap condition delivered proposals) then apply_swap on the state of
+                                x returns Ok
+     ev_ok C ph s e             the oracle answer e fits the phase: a draw index below the size of the draw set,
+                                a corner that is a permutation of the real corner, a uniform number for PhRandom
+     FailSite C ph s e c        the three sites at which a run can fail with code c (below)
+     annotb nodes es            every edge's topology index is a position of the annotation of both end points
+     posb tg / PosT tg          every stored target weight is positive (boolean / as seen through tlookup)       *)
+
+(* THE APPLY STEP NEVER FAILS (general: every well-formed network, target, limits, oracle stream, both id
+   rules): at every configuration of every run at which the apply step can be reached, it succeeds -- no
+   "edge already present", no networkx / draw-set error, no edge-count mismatch *)
+Theorem C11_no_apply_failure :
+  forall fixed nodes tg es0 sl cl evs,
+    WF (Z.of_nat (length nodes)) es0 ->
+    let C := mk_cfg fixed nodes tg es0 sl cl in
+    Forall (apply_ok_at C) (rewire_visited C es0 evs).
+Proof. exact rewire_apply_ok. Qed.
+Print Assumptions C11_no_apply_failure.
+
+(* WHERE A RUN CAN FAIL (general): a run that ends in the error state either started from a network without
+   edges (random.choice([]): IndexError at once), or failed at its LAST configuration, with the state
+   untouched, at one of exactly three sites:
+     FS_protocol  E_PROTOCOL  the oracle answer is invalid (not an error of the code)
+     FS_index     E_INDEX     jd[index] in the swap condition of a pair [suitable] accepted; an edge of the
+                              current graph has an end point whose annotation is too short
+     FS_denzero   E_MCMC      the swap condition's denominator is 0 (ErrorMarkovChainMonteCarloRewiring)
+   -- never the apply step, never KeyError / NetworkXError *)
+Theorem C11_failure_site :
+  forall fixed nodes tg es0 sl cl evs,
+    WF (Z.of_nat (length nodes)) es0 ->
+    let C := mk_cfg fixed nodes tg es0 sl cl in
+    forall c sf tr, rewire C es0 evs = (Failed c, sf, tr) ->
+      (es0 = [] /\ c = E_INDEX) \/
+      (es0 <> [] /\ exists pre ph e, rewire_visited C es0 evs = pre ++ [(ph, sf, e)] /\
+                                    step C ph sf e = Halt (Failed c) sf false /\ FailSite C ph sf e c).
+Proof. exact rewire_fail. Qed.
+Print Assumptions C11_failure_site.
+
+(* the same, seen from the arguments of rewire: which error statuses remain possible and why *)
+Theorem C11_failure_causes :
+  forall fixed nodes tg es0 sl cl evs,
+    WF (Z.of_nat (length nodes)) es0 ->
+    let C := mk_cfg fixed nodes tg es0 sl cl in
+    forall c sf tr, rewire C es0 evs = (Failed c, sf, tr) ->
+      (c = E_PROTOCOL /\ exists pre ph e, rewire_visited C es0 evs = pre ++ [(ph, sf, e)] /\ ev_ok C ph sf e = false) \/
+      (c = E_INDEX /\ (es0 = [] \/ annotb nodes es0 = false)) \/
+      (c = E_MCMC /\ ~ PosT tg).
+Proof. exact rewire_failure_causes. Qed.
+Print Assumptions C11_failure_causes.
+
+(* an invalid oracle answer always gives the protocol status (no hypothesis): E_PROTOCOL <-> invalid answer *)
+Theorem C11_invalid_answer_is_protocol :
+  forall C ph s e, ev_ok C ph s e = false -> step C ph s e = Halt (Failed E_PROTOCOL) s false.
+Proof. exact step_bad_event. Qed.
+Print Assumptions C11_invalid_answer_is_protocol.
+
+(* THE CLEAN RUN: at least one edge, annotations long enough, positive stored weights, valid oracle answers:
+   the run does not end in the error state at all -- it finishes, or the script ends first *)
+Theorem C11_clean_run_never_fails :
+  forall fixed nodes tg es0 sl cl evs,
+    WF (Z.of_nat (length nodes)) es0 -> es0 <> [] -> annotb nodes es0 = true -> PosT tg ->
+    let C := mk_cfg fixed nodes tg es0 sl cl in
+    script_okb C es0 evs = true ->
+    let '(r, sf, tr) := rewire C es0 evs in r = Finished \/ r = Exhausted.
+Proof. exact rewire_clean_run. Qed.
+Print Assumptions C11_clean_run_never_fails.
+
+Theorem C11_posb_sound : forall tg, posb tg = true -> PosT tg.
+Proof. exact posb_PosT. Qed.
+Print Assumptions C11_posb_sound.
+
+(* METHOD LEVEL (any well-formed graph, not only states of a run): corners that are permutations of the real
+   corners, accepted by [suitable], proposals delivered by the swap condition: apply_swap succeeds, the draw set
+   mirrors the new edge set and the hard clauses hold for it *)
+Theorem C11_apply_after_accept :
+  forall N nodes tg fixed es u0 v0 m0 m1 c0 c1 a0 a1 props top bot,
+    WF N es ->
+    permb c0 (corner es u0 m0) = true -> permb c1 (corner es v0 m1) = true ->
+    attrs es u0 c0 = Some a0 -> attrs es v0 c1 = Some a1 ->
+    suitable es u0 v0 a0 a1 = true ->
+    swap_pre fixed nodes tg u0 v0 a0 a1 = PNeed props top bot ->
+    exists es' d', apply_swap N (length es) es (init_ds N es) u0 v0 c0 c1 props = Ok (es', d')
+                   /\ Mirror N es' d' /\ (Z.of_nat (length nodes) = N -> Hard nodes es nodes es').
+Proof. exact apply_after_accept. Qed.
+Print Assumptions C11_apply_after_accept.
+
+(* the swap condition itself, on genuine corners [suitable] accepted: only IndexError (short annotation) or the
+   zero denominator; the hashmap pop (ErrorMCMC "exhausted" / KeyError) can not fail *)
+Theorem C11_swap_condition_errors :
+  forall fixed nodes tg es u0 v0 m0 m1 a0 a1 c,
+    Permutation a0 (corner_edges es u0 m0) -> Permutation a1 (corner_edges es v0 m1) ->
+    suitable es u0 v0 a0 a1 = true ->
+    swap_pre fixed nodes tg u0 v0 a0 a1 = PErr c ->
+    (c = E_INDEX /\ ~ (forall e, In e (a0 ++ a1) -> annot_ok nodes e = true)) \/
+    (c = E_MCMC /\ exists bot, den_loop nodes tg u0 v0 a0 a1 (1 # 1) = DenOk bot /\ Qeq_bool bot (0 # 1) = true).
+Proof. exact swap_pre_err. Qed.
+Print Assumptions C11_swap_condition_errors.
+
+(* ---------- non-vacuity ---------- *)
+(* the example run meets every hypothesis of C11_clean_run_never_fails, and passes through ten configurations,
+   two of them with the Metropolis test due (so C11_no_apply_failure speaks about two real apply steps) *)
+Definition is_random (x : site) : bool :=
+  match fst (fst x) with PhRandom _ _ _ _ _ _ _ => true | _ => false end.
+Example C11_clean_run_nonvacuous : forall fixed,
+  let C := mk_cfg fixed ex_nodes ex_target ex_edges (Some 25%nat) (Some 1%nat) in
+  ex_edges <> [] /\ annotb ex_nodes ex_edges = true /\ posb ex_target = true /\ script_okb C ex_edges ex_events = true
+  /\ length (rewire_visited C ex_edges ex_events) = 10%nat
+  /\ length (filter is_random (rewire_visited C ex_edges ex_events)) = 2%nat.
+Proof. intros [|]; vm_compute; repeat split; try reflexivity; discriminate. Qed.
+
+(* each of the remaining error statuses does occur (the classification is not vacuous):
+   a stored weight 0 on the pairing of the old edge (2,8) -> zero denominator, ErrorMCMC;
+   vertex 9 annotated with the empty tuple -> IndexError in the swap condition;
+   the empty network -> IndexError of random.choice([]);
+   a corner answer that is not the corner / a draw index out of range -> protocol status *)
+Definition zero_target : target :=
+  map (map (fun kq : list Z * Q => if zs_eqb (fst kq) [0; 1; 0; 0]%Z then (fst kq, 0 # 1) else kq)) ex_target.
+Definition short_nodes : list (list Z) :=
+  [[1;1];[0;1];[1;1];[0;1];[2;1];[1;1];[2;0];[2;0];[1;0];[]]%Z.
+Example C11_failures_do_occur :
+  fst (fst (rewire (mk_cfg false ex_nodes zero_target ex_edges None None) ex_edges ex_events)) = Failed E_MCMC
+  /\ posb zero_target = false
+  /\ fst (fst (rewire (mk_cfg false short_nodes ex_target ex_edges None None) ex_edges ex_events)) = Failed E_INDEX
+  /\ annotb short_nodes ex_edges = false
+  /\ fst (fst (rewire (mk_cfg false ex_nodes ex_target [] None None) [] ex_events)) = Failed E_INDEX
+  /\ fst (fst (rewire (mk_cfg false ex_nodes ex_target ex_edges None None) ex_edges [EDraw 4; ECorner [7%Z]]))
+     = Failed E_PROTOCOL
+  /\ fst (fst (rewire (mk_cfg false ex_nodes ex_target ex_edges None None) ex_edges [EDraw 40])) = Failed E_PROTOCOL.
+Proof.
+  repeat split; vm_compute; reflexivity.
+Qed.
+Example C11_failures_do_occur_wf : WF (Z.of_nat (length short_nodes)) ex_edges /\ WF (Z.of_nat (length ex_nodes)) [].
+Proof. split; apply wfb_sound; vm_compute; reflexivity. Qed.
